@@ -19,7 +19,7 @@ from fractions import Fraction
 
 import numpy as np
 
-from vlib.core import SRC, Ctx, src_sha
+from vlib.core import SRC, Ctx, q_bigq, src_sha
 
 
 class Unsupported(Exception):
@@ -330,8 +330,590 @@ def gen(ctx: Ctx):
     return bragg
 
 
+# --------------------------------------------------------------------------------------------- harness
+ABS_TOL = 1e-12      # oracle tolerance for exact identities evaluated in float (observed deviations <= 1e-15)
+NAN_Z = [2, 10, 18, 36, 54, 85, 86]
+
+
+def ql(xs) -> str:
+    return "[" + "; ".join(q_bigq(float(x)) for x in xs) + "]"
+
+
+def qll(rows) -> str:
+    return "[" + "; ".join(ql(r) for r in rows) + "]"
+
+
+def nl(xs) -> str:
+    return "[" + "; ".join(f"{int(x)}%nat" for x in xs) + "]"
+
+
+def tbl_term(radii: dict | None) -> str:
+    t = "bragg_table"
+    for zz, r in (radii or {}).items():
+        t = f"(tbl_update {t} {zz}%Z {pyf(float(r))})"
+    return t
+
+
+def code_distances(at, pts):
+    """the code's own expressions for n_p and atomic_dist"""
+    n_p = np.linalg.norm(at[:, None] - pts, axis=-1)
+    atomic_dist = np.linalg.norm(at[:, None] - at, axis=-1)
+    return n_p, atomic_dist
+
+
+def rand_rotation(rng):
+    a = np.array([[rng.gauss(0, 1) for _ in range(3)] for _ in range(3)])
+    qm, r = np.linalg.qr(a)
+    return qm * np.sign(np.diag(r))
+
+
+def make_case(ctx: Ctx, i: int, small: bool):
+    """one random molecule + points + segmentation + order (+ custom radii)"""
+    rng = ctx.rng
+    if small:
+        M = rng.choice([1, 2, 2, 3])
+    else:
+        M = rng.choice([1, 2, 3, 4, 4, 5, 6, 7, 8, 9, 9])
+    order = rng.choice([1, 2, 3, 3, 4, 5]) if rng.random() > 0.04 else 0
+    scale = rng.choice([0.8, 1.5, 2.5, 4.0])
+    while True:
+        at = np.array([[rng.gauss(0, scale) for _ in range(3)] for _ in range(M)])
+        dm = np.linalg.norm(at[:, None] - at, axis=-1) + np.eye(M) * 10
+        if dm.min() > 0.3:
+            break
+    nums = []
+    for _ in range(M):
+        r = rng.random()
+        nums.append(rng.choice(NAN_Z) if r < 0.3 else rng.choice([1, 6, 7, 8]) if r < 0.55 else rng.randint(1, 86))
+    nums = np.array(nums, dtype=int)
+    radii = None
+    r = rng.random()
+    if r < 0.12:
+        radii = {int(z): round(rng.uniform(0.3, 4.0), 3) for z in set(nums.tolist()) if rng.random() < 0.7}
+    elif r < 0.2:
+        z = int(rng.choice([int(x) for x in nums if x >= 4] or [26]))
+        radii = {z: float("nan")}            # user-declared missing radius -> fallback to z-1 / z-2
+        if z not in nums:
+            nums[0] = z
+    N = rng.choice([1, 2, 3, 5, 6, 8, 10, 12]) if not small else rng.choice([2, 3, 4])
+    pts = []
+    for _ in range(N):
+        t = rng.random()
+        if t < 0.2:
+            pts.append(at[rng.randrange(M)].copy())                                  # exactly a nucleus
+        elif t < 0.3:
+            pts.append(at[rng.randrange(M)] + np.array([rng.gauss(0, 1e-3) for _ in range(3)]))
+        elif t < 0.4:
+            pts.append(np.array([rng.gauss(0, 1) for _ in range(3)]) * rng.choice([1e2, 1e4, 1e6]))   # far away
+        elif t < 0.5 and M >= 2:
+            a, b = rng.sample(range(M), 2)
+            lam = rng.choice([0.5, rng.random(), -0.5, 1.5])
+            pts.append(at[a] + lam * (at[b] - at[a]))                                # on the line through two nuclei
+        else:
+            pts.append(at[rng.randrange(M)] + np.array([rng.gauss(0, scale) for _ in range(3)]))
+    pts = np.array(pts)
+    cuts = sorted(rng.randint(0, N) for _ in range(M - 1))
+    idx = np.array([0] + cuts + [N], dtype=int)
+    return {"i": i, "M": M, "order": order, "at": at, "nums": nums, "radii": radii, "pts": pts, "idx": idx, "N": N}
+
+
+def impl_eval(c):
+    """every route of the implementation on one case; exceptions are returned, not raised"""
+    from grid.becke import BeckeWeights
+
+    out = {}
+    with warnings.catch_warnings():
+        warnings.simplefilter("ignore")
+        b = BeckeWeights(radii=c["radii"], order=c["order"])
+        at, nums, pts, idx, M = c["at"], c["nums"], c["pts"], c["idx"], c["M"]
+
+        def tryf(name, f):
+            try:
+                out[name] = np.asarray(f(), dtype=float)
+            except Exception as e:  # noqa: BLE001
+                out[name] = e
+
+        tryf("call", lambda: b(pts, at, nums, idx))
+        tryf("gen", lambda: b.generate_weights(pts, at, nums, pt_ind=idx))
+        tryf("comp", lambda: b.compute_weights(pts, at, nums, pt_ind=idx))
+        for A in range(M):
+            tryf(("atom", A), lambda A=A: b.compute_atom_weight(pts, at, nums, A))
+            tryf(("gsel", A), lambda A=A: b.generate_weights(pts, at, nums, select=A))
+            tryf(("csel", A), lambda A=A: b.compute_weights(pts, at, nums, select=A))
+    return out
+
+
+def reference(c, cutoff=0.45):
+    """independent oracle: Becke weights from the same float distances in 60-digit arithmetic (mpmath)"""
+    import mpmath as mp
+
+    from grid.becke import BeckeWeights
+
+    mp.mp.dps = 60
+    with warnings.catch_warnings():
+        warnings.simplefilter("ignore")
+        rd = BeckeWeights(radii=c["radii"])._radii
+
+    def rad(z):
+        for k in (z, z - 1, z - 2):
+            v = rd[k]
+            if v == v and (k == z or v != 0):
+                return mp.mpf(float(v))
+        return mp.mpf(0)
+
+    n_p, Rm = code_distances(c["at"], c["pts"])
+    M, N = n_p.shape
+    r = [rad(int(z)) for z in c["nums"]]
+    W = [[None] * N for _ in range(M)]
+    cm = mp.mpf(cutoff)
+    for p in range(N):
+        P = []
+        for A in range(M):
+            pr = mp.mpf(1)
+            for B in range(M):
+                if A == B:
+                    continue
+                u = (r[A] - r[B]) / (r[A] + r[B])
+                a = u / (u * u - 1)
+                a = min(max(a, -cm), cm)
+                mu = (mp.mpf(float(n_p[A, p])) - mp.mpf(float(n_p[B, p]))) / mp.mpf(float(Rm[A, B]))
+                x = mu + a * (1 - mu * mu)
+                for _ in range(c["order"]):
+                    x = mp.mpf(3) / 2 * x - x ** 3 / 2
+                pr *= (1 - x) / 2
+            P.append(pr)
+        S = sum(P)
+        for A in range(M):
+            W[A][p] = float(P[A] / S)
+    return np.array(W)
+
+
+def owner_of(idx, N):
+    own = np.full(N, -1, dtype=int)
+    for A in range(len(idx) - 1):
+        own[idx[A]:idx[A + 1]] = A
+    return own
+
+
+def case_key(c):
+    return f"case{c['i']}:M{c['M']}:k{c['order']}:Z{'-'.join(map(str, c['nums'].tolist()))}"
+
+
+def case_replay(c, extra=None):
+    d = {"atcoords": c["at"].tolist(), "atnums": c["nums"].tolist(), "points": c["pts"].tolist(),
+         "indices": c["idx"].tolist(), "order": c["order"], "radii": c["radii"],
+         "reproduce": "b = BeckeWeights(radii, order); b(points, atcoords, atnums, indices); b.generate_weights(points, atcoords, atnums, pt_ind=indices); "
+                      "b.compute_weights(...); b.compute_atom_weight(points, atcoords, atnums, A)"}
+    d.update(extra or {})
+    return d
+
+
+def oracle_checks(ctx: Ctx, c, out, budget):
+    """property oracles directly on the implementation; returns number of failures reported for this case"""
+    from grid.becke import BeckeWeights
+
+    M, N, idx = c["M"], c["N"], c["idx"]
+    nfail = 0
+
+    def fail(kind, observed, text, extra=None):
+        nonlocal nfail
+        nfail += 1
+        if budget[0] > 0:
+            budget[0] -= 1
+            ctx.fail(f"oracle_{kind}", f"{kind}:{case_key(c)}", observed, text, case_replay(c, extra))
+
+    for k, v in out.items():
+        if isinstance(v, Exception):
+            fail("crash", type(v).__name__, f"route {k} raised {type(v).__name__}: {v}", {"route": str(k)})
+    if nfail:
+        return nfail
+    for k, v in out.items():
+        if v.shape != (N,):
+            fail("shape", list(v.shape), f"route {k} returned shape {v.shape}, expected ({N},)", {"route": str(k)})
+    if nfail:
+        return nfail
+    W = np.array([out[("atom", A)] for A in range(M)])
+    if not np.all(np.isfinite(W)):
+        fail("finite", None, "a weight is nan/inf on a geometry with distinct atoms", {"weights": W.tolist()})
+        return nfail
+    s = W.sum(axis=0)
+    j = int(np.argmax(np.abs(s - 1)))
+    if abs(s[j] - 1) > ABS_TOL:
+        fail("sum", float(s[j]), f"sum of the Becke weights of all atoms at point {j} is {s[j]!r}, not 1", {"point": j})
+    if W.min() < -ABS_TOL or W.max() > 1 + ABS_TOL:
+        A, j = np.unravel_index(int(np.argmax(np.maximum(-W, W - 1))), W.shape)
+        fail("range", float(W[A, j]), f"weight of atom {A} at point {j} is {W[A, j]!r}, outside [0,1]", {"atom": int(A), "point": int(j)})
+    for j in range(N):
+        for A in range(M):
+            if np.array_equal(c["pts"][j], c["at"][A]):
+                exp = np.zeros(M)
+                exp[A] = 1
+                if np.max(np.abs(W[:, j] - exp)) > ABS_TOL:
+                    fail("nucleus", W[:, j].tolist(), f"weights at the nucleus of atom {A} are {W[:, j].tolist()}, expected {exp.tolist()}",
+                         {"point": j, "atom": A})
+    own = owner_of(idx, N)
+    exp_seg = np.array([W[own[j], j] if own[j] >= 0 else 0.0 for j in range(N)])
+    for name in ("call", "gen", "comp"):
+        d = np.abs(out[name] - exp_seg)
+        if d.max() > ABS_TOL:
+            j = int(np.argmax(d))
+            fail("routes", [float(out[name][j]), float(exp_seg[j])],
+                 f"route {name} at point {j} (segment of atom {own[j]}) gives {out[name][j]!r}, per-atom route gives {exp_seg[j]!r}",
+                 {"route": name, "point": j})
+    for A in range(M):
+        for name in ("gsel", "csel"):
+            d = np.abs(out[(name, A)] - W[A])
+            if d.max() > ABS_TOL:
+                j = int(np.argmax(d))
+                fail("routes", [float(out[(name, A)][j]), float(W[A, j])],
+                     f"route {name}(select={A}) at point {j} gives {out[(name, A)][j]!r}, compute_atom_weight gives {W[A, j]!r}",
+                     {"route": name, "atom": A, "point": j})
+    # rigid motion and relabeling (float distances change by rounding: tolerance 1e-8)
+    with warnings.catch_warnings():
+        warnings.simplefilter("ignore")
+        b = BeckeWeights(radii=c["radii"], order=c["order"])
+        qm, t = rand_rotation(ctx.rng), np.array([ctx.rng.gauss(0, 3) for _ in range(3)])
+        near = np.linalg.norm(c["pts"], axis=1) < 1e3          # far points lose absolute position accuracy
+        if near.any():
+            at2, pts2 = c["at"] @ qm.T + t, c["pts"][near] @ qm.T + t
+            try:
+                W2 = np.array([b.compute_atom_weight(pts2, at2, c["nums"], A) for A in range(M)])
+                d = np.abs(W2 - W[:, near])
+                if not np.all(np.isfinite(W2)) or d.max() > 1e-8:
+                    fail("rigid", float(np.nanmax(d)), f"weights change by {np.nanmax(d)!r} under a rotation+translation of atoms and points",
+                         {"rotation": qm.tolist(), "translation": t.tolist()})
+            except Exception as e:  # noqa: BLE001
+                fail("crash", type(e).__name__, f"compute_atom_weight raised {e} on the rotated system")
+        perm = list(range(M))
+        ctx.rng.shuffle(perm)
+        try:
+            W3 = np.array([b.compute_atom_weight(c["pts"], c["at"][perm], c["nums"][perm], A) for A in range(M)])
+            d = np.abs(W3 - W[perm])
+            if not np.all(np.isfinite(W3)) or d.max() > 1e-10:
+                fail("relabel", float(np.nanmax(d)), f"weights change by {np.nanmax(d)!r} under relabeling {perm}", {"perm": perm})
+        except Exception as e:  # noqa: BLE001
+            fail("crash", type(e).__name__, f"compute_atom_weight raised {e} on the relabeled system")
+    return nfail
+
+
+def coq_case(c, out, ops, atoms):
+    n_p, Rm = code_distances(c["at"], c["pts"])
+    M, N = c["M"], c["N"]
+    z = "[" + "; ".join(f"{int(v)}%Z" for v in c["nums"]) + "]"
+    return (f"run_case {ops} {c['order']}%nat {M}%nat {tbl_term(c['radii'])} {z} {qll(Rm)} {qll(n_p.T)} {nl(c['idx'])} "
+            f"{ql(out['call'])} {ql(out['gen'])} {ql(out['comp'])} {nl(atoms)} "
+            f"{qll([out[('atom', A)] for A in atoms])} {qll([out[('gsel', A)] for A in atoms])} {qll([out[('csel', A)] for A in atoms])}")
+
+
+HDR = ("From Coq Require Import ZArith QArith List Bool.\nFrom Bignums Require Import BigQ.\n"
+       "From P Require Import C06_model_ops C06_gen C06_model.\nImport ListNotations.\n")
+
+
+def diagnose(c, out):
+    """which route/point deviates from the 60-digit reference (for the failure text)"""
+    try:
+        W = reference(c)
+    except Exception as e:  # noqa: BLE001
+        return f"(reference oracle failed: {e})", None
+    own = owner_of(c["idx"], c["N"])
+    worst = (0.0, "")
+    for k, v in out.items():
+        if isinstance(v, Exception) or v.shape != (c["N"],):
+            return f"route {k} raised/shape", None
+        for j in range(c["N"]):
+            A = k[1] if isinstance(k, tuple) else own[j]
+            e = W[A, j] if A >= 0 else 0.0
+            d = abs(v[j] - e)
+            if d > worst[0]:
+                worst = (d, f"route {k} point {j} atom {A}: implementation {v[j]!r}, reference {e!r}")
+    return worst[1] or "(implementation agrees with the reference oracle: the Coq model deviates)", worst[0]
+
+
 def run(ctx: Ctx):
+    import importlib
+
+    import grid.becke as gb
+    import grid.utils as gu
+
+    importlib.reload(gu)
+    importlib.reload(gb)
     bragg = gen(ctx)
+    # translation validation of the table: the live default dictionary is {Z: _bragg[Z]} for Z = 1..86
+    with warnings.catch_warnings():
+        warnings.simplefilter("ignore")
+        live = gb.BeckeWeights()._radii
+    same = sorted(live) == list(range(1, 87)) and all(
+        (live[zz] != live[zz] and bragg[zz] is None) or (bragg[zz] is not None and float(live[zz]) == bragg[zz]) for zz in range(1, 87))
+    if not same:
+        ctx.fail("gen_tables", "table:_radii", None, "BeckeWeights()._radii is not {Z: _bragg[Z] for Z in 1..86} as extracted from utils.py", found_input=False)
     ctx.copy_coq("C06")
     status = ctx.coq_build()
     ctx.register_props(status)
+    if not all(status.get(f, False) for f in ("C06_model_ops.v", "C06_gen.v", "C06_model.v")):
+        ctx.fail("model_build", "model:build", None, "the generated leaves / model no longer compile: " +
+                 "; ".join(f"{k}: {ctx.logs.get(k, '')[-300:]}" for k, v in status.items() if not v and "proofs" not in k and "props" not in k),
+                 found_input=False)
+        model_ok = False
+    else:
+        model_ok = True
+
+    # ------------------------------------------------------------------ cases: implementation + oracles
+    n_main = 50 if ctx.quick else 700
+    n_small = 30 if ctx.quick else 250
+    cases = [make_case(ctx, i, False) for i in range(n_main)] + [make_case(ctx, n_main + i, True) for i in range(n_small)]
+    budget = [6]
+    outs, oracle_failed = [], set()
+    for c in cases:
+        out = impl_eval(c)
+        outs.append(out)
+        if oracle_checks(ctx, c, out, budget):
+            oracle_failed.add(c["i"])
+        nchunks = -(-c["N"] // max(1, (10 * c["N"]) // c["M"] ** 2))
+        ctx.count(f"atoms={c['M']}")
+        ctx.count(f"order={c['order']}")
+        ctx.count("chunks>1" if nchunks > 1 else "chunks=1")
+        ctx.count("has_nan_radius_element" if any(int(zz) in NAN_Z for zz in c["nums"]) else "all_radii_tabulated")
+        if c["radii"]:
+            ctx.count("custom_radii")
+    ctx.sample({k: (v.tolist() if hasattr(v, "tolist") else v) for k, v in cases[0].items()})
+
+    # ------------------------------------------------------------------ correspondence with the Coq model
+    if model_ok:
+        exprs, meta = [], []
+        for c, out in zip(cases, outs):
+            if any(isinstance(v, Exception) or v.shape != (c["N"],) or not np.all(np.isfinite(v)) for v in out.values()):
+                continue  # already reported by the oracles; nothing to compare
+            atoms = sorted(ctx.rng.sample(range(c["M"]), min(c["M"], 2 if c["M"] < 5 else 1)))
+            exprs.append(coq_case(c, out, "QOpsR", atoms))
+            meta.append((c, out, "rounded"))
+            ctx.case((case_key(c), "rounded"), traces=c["N"] * (3 + 3 * len(atoms)))
+            cost = c["M"] ** 2 * 4 ** c["order"] * c["N"]
+            if cost <= (500 if ctx.quick else 1200):
+                exprs.append(coq_case(c, out, "QOps", atoms[:1]))
+                meta.append((c, out, "exact"))
+                ctx.case((case_key(c), "exact"), traces=c["N"] * 6)
+                n_p, Rm = code_distances(c["at"], c["pts"])
+                z = "[" + "; ".join(f"{int(v)}%Z" for v in c["nums"]) + "]"
+                exprs.append(f"run_exact_vs_rounded {c['order']}%nat {c['M']}%nat {tbl_term(c['radii'])} {z} {qll(Rm)} {qll(n_p.T)} {nl(c['idx'])}")
+                meta.append((c, out, "exact-vs-rounded"))
+                ctx.case((case_key(c), "xr"))
+        ctx.count("model_cases_exact", sum(1 for m in meta if m[2] == "exact"))
+        ctx.count("model_cases_rounded", sum(1 for m in meta if m[2] == "rounded"))
+        bad = ctx.coq_bool_cases("C06_cases", HDR, exprs, shard=max(4, len(exprs) // 32 + 1))
+        rep = 0
+        for bi in bad:
+            c, out, kind = meta[bi]
+            if kind == "exact-vs-rounded":
+                ctx.fail("model_rounding", f"xr:{case_key(c)}", None,
+                         "the 2^-256-rounded bigQ instance deviates from the exact bigQ instance of the model", case_replay(c), found_input=False)
+                continue
+            if c["i"] in oracle_failed or rep >= 4:
+                continue  # a concrete failing input for the property was already reported for this geometry
+            rep += 1
+            txt, dev = diagnose(c, out)
+            ctx.fail("corr_becke", f"model:{case_key(c)}", dev,
+                     f"Coq model ({kind} bigQ) and implementation disagree beyond 1e-10 on {case_key(c)}; {txt}; "
+                     "no violation of the partition-of-unity property itself found on this geometry", case_replay(c), found_input=False)
+        s = meta[len(meta) // 2]
+        ctx.sample({"case": case_key(s[0]), "instance": s[2], "impl_call": s[1]["call"].tolist()})
+
+    # ------------------------------------------------------------------ many more geometries: oracles only
+    n_extra = 800 if ctx.quick else 15000
+    for i in range(n_extra):
+        c = make_case(ctx, 100000 + i, False)
+        out = impl_eval(c)
+        oracle_checks(ctx, c, out, budget)
+        ctx.case(("oracle", i))
+    ctx.count("oracle_only_geometries", n_extra)
+
+    # ------------------------------------------------------------------ explicit `select` with a segment table
+    select_cases(ctx, cases, model_ok, budget)
+    # ------------------------------------------------------------------ Hirshfeld
+    hirshfeld_cases(ctx, model_ok, budget)
+
+    ctx.cov["rule"] = (
+        "random molecules of 1-9 atoms (Z uniformly from 1..86, 30% forced to elements with undefined Bragg radius, optional custom "
+        "radii incl. user-declared nan), points at nuclei / near nuclei / on internuclear lines / far away (1e2..1e6), orders 0-5, random "
+        "monotone segment tables with empty segments; for every geometry ALL routes of the implementation are evaluated "
+        "(__call__, generate_weights, compute_weights with pt_ind; the three per-atom routes for every atom) and checked by property "
+        "oracles (sum=1, [0,1], nucleus values, route equality, rigid motion, relabeling); a subset is compared with the Coq model "
+        "evaluated by vm_compute on the exact rational values of the code's own float distances (tolerance 1e-10 relative + 1e-13). "
+        "distinct = (geometry, model instance)")
+    ctx.trusted += [
+        "translator tools/props/c06.py (ast -> NumOps terms) for _switch_func, _calculate_alpha, the v_pp/s_ab/radius lines, chunk_size, _bragg; "
+        "the tensor lines (n_p, n_n_p, atomic_dist, mu_p_n_n, np.prod) are hand-modelled and their source text is pinned",
+        "hand model of slicing/accumulation in generate_weights / compute_weights / __call__ / HirshfeldWeights.__call__, tied by correspondence",
+        "distance data is an INPUT of the model: computed by the harness with the code's expressions np.linalg.norm(atcoords[:, None] - points, axis=-1) "
+        "and np.linalg.norm(atcoords[:, None] - atcoords, axis=-1); the Euclidean hypotheses (triangle inequality, positive separation) are proved for real "
+        "coordinates, float distances satisfy them up to rounding",
+        "bulk correspondence uses bigQ arithmetic rounded to 2^-256 after every operation (instance QOpsR); exact bigQ (QOps) on small cases; "
+        "QOpsR is cross-checked against QOps on those cases",
+        "tolerances: model vs implementation 1e-10 relative + 1e-13 absolute; oracles 1e-12 (exact identities), 1e-8 rigid motion, 1e-10 relabeling",
+        "Hirshfeld pro-atom spline (scipy CubicSpline) is a Section variable; the harness passes its values at the sampled distances as a finite table "
+        "and validates that generate_proatom depends on the distance only",
+        "60-digit mpmath re-implementation of the Becke formula (diagnosis of model/implementation disagreements only)",
+    ]
+    ctx.assumptions += [
+        "atoms at pairwise distinct positions (nan-driven control flow for coincident atoms is outside the property)",
+        "atomic numbers 1..86 with the default Bragg table or finite positive custom radii; float overflow of distances (|r| > 1e150) not considered",
+        "indices is a NumPy integer array of length M+1 (monotone for the ownership theorem; the chunking theorem needs no monotonicity)",
+    ]
+
+
+def select_cases(ctx: Ctx, cases, model_ok, budget):
+    from grid.becke import BeckeWeights
+
+    exprs, meta = [], []
+    n = 0
+    for c in cases:
+        if c["M"] < 2 or n >= (25 if ctx.quick else 250):
+            continue
+        n += 1
+        M, N, idx = c["M"], c["N"], c["idx"]
+        sel = [ctx.rng.randrange(M) for _ in range(M)] if ctx.rng.random() < 0.5 else ctx.rng.sample(range(M), M)
+        with warnings.catch_warnings():
+            warnings.simplefilter("ignore")
+            b = BeckeWeights(radii=c["radii"], order=c["order"])
+            try:
+                g = np.asarray(b.generate_weights(c["pts"], c["at"], c["nums"], select=sel, pt_ind=idx), dtype=float)
+                W = np.array([b.compute_atom_weight(c["pts"], c["at"], c["nums"], A) for A in range(M)])
+            except Exception as e:  # noqa: BLE001
+                if budget[0] > 0:
+                    budget[0] -= 1
+                    ctx.fail("oracle_crash", f"select-crash:{case_key(c)}", type(e).__name__,
+                             f"generate_weights(select={sel}, pt_ind=indices) raised {e}", case_replay(c, {"select": sel}))
+                continue
+        own = owner_of(idx, N)
+        exp = np.array([W[sel[own[j]], j] for j in range(N)])
+        ctx.case(("select", case_key(c), tuple(sel)))
+        if g.shape != (N,) or not np.all(np.isfinite(g)) or np.max(np.abs(g - exp)) > ABS_TOL:
+            if budget[0] > 0:
+                budget[0] -= 1
+                ctx.fail("oracle_routes", f"select:{case_key(c)}:{sel}", g.tolist(),
+                         f"generate_weights(select={sel}, pt_ind=indices) differs from the per-atom weights of the selected atoms on their segments",
+                         case_replay(c, {"select": sel, "expected": exp.tolist()}))
+            continue
+        if model_ok and c["M"] ** 2 * c["N"] <= 400:
+            n_p, Rm = code_distances(c["at"], c["pts"])
+            z = "[" + "; ".join(f"{int(v)}%Z" for v in c["nums"]) + "]"
+            exprs.append(f"run_select QOpsR {c['order']}%nat {M}%nat {tbl_term(c['radii'])} {z} {qll(Rm)} {qll(n_p.T)} {nl(sel)} {nl(idx)} {ql(g)}")
+            meta.append((c, sel))
+    if exprs:
+        for bi in ctx.coq_bool_cases("C06_select", HDR, exprs, shard=max(2, len(exprs) // 16 + 1))[:3]:
+            c, sel = meta[bi]
+            ctx.fail("corr_select", f"model-select:{case_key(c)}:{sel}", None,
+                     f"Coq model and implementation of generate_weights(select={sel}, pt_ind=indices) disagree; the oracle found no property violation",
+                     case_replay(c, {"select": sel}), found_input=False)
+    # the two segment-wise routes with the SAME explicit select (theorem routes_agree_select_refuted): fixed minimal input
+    at = np.array([[0.0, 0.0, 0.0], [0.0, 0.0, 1.4]])
+    nums = np.array([1, 1])
+    with warnings.catch_warnings():
+        warnings.simplefilter("ignore")
+        b = BeckeWeights(order=3)
+        try:
+            g = np.asarray(b.generate_weights(at, at, nums, select=[1, 0], pt_ind=[0, 1, 2]), dtype=float)
+            try:
+                cw = np.asarray(b.compute_weights(at, at, nums, select=[1, 0], pt_ind=[0, 1, 2]), dtype=float).tolist()
+            except Exception as e:  # noqa: BLE001
+                cw = [type(e).__name__]
+            if g.tolist() != cw:
+                ctx.fail("routes_agree_select_refuted", "routes-select:H2:select=[1,0]:pt_ind=[0,1,2]", g.tolist() + cw,
+                         f"generate_weights(points=nuclei of H2, select=[1,0], pt_ind=[0,1,2]) = {g.tolist()} but compute_weights with the same "
+                         f"arguments = {cw}: compute_weights pairs atom i with segment i (for i in select) instead of segment k with select[k]",
+                         {"reproduce": "b=BeckeWeights(order=3); at=np.array([[0,0,0],[0,0,1.4]]); b.generate_weights(at, at, np.array([1,1]), select=[1,0], pt_ind=[0,1,2]); "
+                                       "b.compute_weights(at, at, np.array([1,1]), select=[1,0], pt_ind=[0,1,2])"})
+        except Exception as e:  # noqa: BLE001
+            ctx.fail("oracle_crash", "routes-select-crash:H2", type(e).__name__, f"generate_weights(select=[1,0], pt_ind=[0,1,2]) raised {e}")
+
+
+def hirshfeld_cases(ctx: Ctx, model_ok, budget):
+    from grid.hirshfeld import HirshfeldWeights
+
+    rng = ctx.rng
+    exprs, meta = [], []
+    for i in range(40 if ctx.quick else 400):
+        M = rng.randint(1, 5)
+        while True:
+            at = np.array([[rng.gauss(0, 1.5) for _ in range(3)] for _ in range(M)])
+            if (np.linalg.norm(at[:, None] - at, axis=-1) + np.eye(M) * 10).min() > 0.5:
+                break
+        nums = np.array([rng.choice([1, 6, 7, 8]) for _ in range(M)], dtype=int)
+        N = rng.randint(1, 9)
+        pts = np.array([at[rng.randrange(M)] + (0 if rng.random() < 0.15 else 1) * np.array([rng.gauss(0, 1.2) for _ in range(3)])
+                        for _ in range(N)])
+        idx = np.array([0] + sorted(rng.randint(0, N) for _ in range(M - 1)) + [N], dtype=int)
+        key = f"hirshfeld{i}:Z{'-'.join(map(str, nums.tolist()))}"
+        rp = {"atcoords": at.tolist(), "atnums": nums.tolist(), "points": pts.tolist(), "indices": idx.tolist(),
+              "reproduce": "HirshfeldWeights()(points, atcoords, atnums, indices)"}
+        ctx.case(("hirshfeld", i))
+        try:
+            with warnings.catch_warnings():
+                warnings.simplefilter("ignore")
+                w = np.asarray(HirshfeldWeights()(pts, at, nums, idx), dtype=float)
+                pro = np.array([HirshfeldWeights.generate_proatom(pts, at[A], nums[A]) for A in range(M)])
+                dist = np.array([np.linalg.norm(pts[:, None] - at[A], axis=-1).flatten() for A in range(M)])
+                # oracle hypothesis: the pro-atom density is a function of (element, distance) only
+                pro2 = np.array([HirshfeldWeights._get_proatom_density(nums[A], dist[A]) for A in range(M)])
+                # all atoms' weights at all points through the public call (atom A owns every point)
+                Wall = np.array([HirshfeldWeights()(pts, at, nums, np.array([0] * (A + 1) + [N] * (M - A))) for A in range(M)])
+        except Exception as e:  # noqa: BLE001
+            if budget[0] > 0:
+                budget[0] -= 1
+                ctx.fail("oracle_crash", f"crash:{key}", type(e).__name__, f"HirshfeldWeights raised {e}", rp)
+            continue
+        bad = None
+        tot = pro.sum(axis=0)
+        if not np.array_equal(pro, pro2):
+            bad = ("hirshfeld_oracle", "generate_proatom is not spline(distance)")
+        elif np.all(tot > 1e-9):
+            own = owner_of(idx, N)
+            share = np.array([pro[own[j], j] / tot[j] for j in range(N)])
+            if w.shape != (N,) or np.max(np.abs(w - share)) > 1e-12 * max(1.0, np.max(np.abs(share))):
+                bad = ("hirshfeld_share", f"HirshfeldWeights()(...) = {w.tolist()} is not the pro-atom density share {share.tolist()}")
+            elif np.max(np.abs(Wall.sum(axis=0) - 1)) > 1e-10:
+                bad = ("hirshfeld_sum", f"Hirshfeld weights of all atoms sum to {Wall.sum(axis=0).tolist()}, not 1")
+        if bad:
+            if budget[0] > 0:
+                budget[0] -= 1
+                ctx.fail(f"oracle_{bad[0]}", f"{bad[0]}:{key}", w.tolist(), bad[1], rp)
+            continue
+        if model_ok and np.all(tot > 1e-9):
+            tab = "[" + "; ".join("[" + "; ".join(f"({q_bigq(float(dist[A, j]))}, {q_bigq(float(pro[A, j]))})" for j in range(N)) + "]" for A in range(M)) + "]"
+            exprs.append(f"run_hirshfeld {M}%nat {tab} {qll(dist.T)} {nl(idx)} {ql(w)}")
+            meta.append((key, rp))
+    ctx.count("hirshfeld_cases", len(exprs))
+    if exprs:
+        for bi in ctx.coq_bool_cases("C06_hirsh", HDR, exprs, shard=max(2, len(exprs) // 16 + 1))[:3]:
+            key, rp = meta[bi]
+            ctx.fail("corr_hirshfeld", f"model:{key}", None,
+                     "Coq model of HirshfeldWeights.__call__ and the implementation disagree; the oracle found no property violation", rp, found_input=False)
+
+
+def replay(rp: dict) -> int:
+    """./check C06 --replay file : re-run the implementation on the stored input and re-apply the oracles."""
+    import json
+    import random
+
+    print(json.dumps({k: v for k, v in rp.items() if k not in ("traceback", "coq_log_tail")}, indent=1)[:3000])
+    if "atcoords" not in rp or "points" not in rp or "order" not in rp:
+        print("reproduce:", rp.get("reproduce", "(see text)"))
+        return 0
+    c = {"i": -1, "M": len(rp["atcoords"]), "order": rp["order"], "at": np.array(rp["atcoords"], dtype=float),
+         "nums": np.array(rp["atnums"], dtype=int), "radii": {int(k): v for k, v in (rp.get("radii") or {}).items()} or None,
+         "pts": np.array(rp["points"], dtype=float), "idx": np.array(rp["indices"], dtype=int), "N": len(rp["points"])}
+
+    class Stub:
+        rng = random.Random(0)
+        fails = []
+
+        def fail(self, ob, key, observed, text, replay=None, found_input=True):
+            self.fails.append(text)
+
+    st = Stub()
+    out = impl_eval(c)
+    oracle_checks(st, c, out, [100])
+    for t in st.fails:
+        print("STILL FAILS:", t)
+    if not st.fails:
+        print("all property oracles pass on this input now")
+    return 1 if st.fails else 0
